@@ -72,6 +72,7 @@ def check(ctx):
     check_escape(ctx, ci)
     check_factories(ctx, ci)
     check_validator(ctx)
+    check_builder_records_all(ctx)
 
 
 # ----------------------------------------------------------------------
@@ -676,3 +677,66 @@ def check_validator(ctx):
                f'guard `{g.text()[:70]}` raises' if g is not None else
                f'validate_taxonomy_tree has no raising check that {what}: '
                'trees violating it are accepted')
+
+
+def check_builder_records_all(ctx):
+    """the tree builder records every parent -> child link of every row of
+    the label table before it validates: a link that is not recorded
+    cannot be found inconsistent (a child under two parents would pass)"""
+    from ..rules import coverage as CV
+    db = ctx.db
+    fi = db.fn('taxonomy.utils:get_taxonomy_tree')
+    ctx.touch(fi)
+    rule = 'R-COVER/builder-records-every-link'
+
+    def is_link_add(node):
+        # tree[parent_level][parent].add(child)
+        for c in cfg_of(fi).calls_in(node):
+            f = c.func
+            if isinstance(f, ast.Attribute) and f.attr == 'add' \
+                    and isinstance(f.value, ast.Subscript) and isinstance(
+                        f.value.value, ast.Subscript):
+                return True
+        return False
+
+    def is_leaf_append(node):
+        for c in cfg_of(fi).calls_in(node):
+            f = c.func
+            if isinstance(f, ast.Attribute) and f.attr == 'append' \
+                    and isinstance(f.value, ast.Subscript) and isinstance(
+                        f.value.value, ast.Subscript):
+                return True
+        return False
+
+    def allow(test, edge):
+        # `if child in links: continue`: the insertion is idempotent
+        return CV.is_membership_test(test) and edge == 'true'
+    loops = {}
+    for n in ast.walk(fi.node):
+        if isinstance(n, ast.Call) and isinstance(n.func, ast.Attribute) \
+                and isinstance(n.func.value, ast.Subscript) and isinstance(
+                    n.func.value.value, ast.Subscript):
+            lp = CV.innermost_loop(n)
+            if lp is None:
+                continue
+            if n.func.attr == 'add':
+                loops.setdefault('links', (lp, is_link_add))
+            elif n.func.attr == 'append':
+                loops.setdefault('rows', (lp, is_leaf_append))
+    if 'links' not in loops:
+        ctx.fail(rule, 'get_taxonomy_tree:links', fi.loc(),
+                 'no loop recording parent -> child links was found')
+    for name, (lp, act) in sorted(loops.items()):
+        CV.check_cover(
+            ctx, fi, rule, f'get_taxonomy_tree:{name}', lp, act,
+            allow=allow if name == 'links' else None,
+            what='level pair' if name == 'links' else 'row',
+            consequence='that link never reaches validate_taxonomy_tree, '
+            'so a table in which a node has two parents at that level is '
+            'accepted')
+    # the link loop runs for every row: its parent is the row loop
+    if 'links' in loops and 'rows' in loops:
+        ok = CV.contains(loops['rows'][0], loops['links'][0])
+        ctx.ob(rule, 'get_taxonomy_tree:links-per-row', fi.loc(), ok,
+               'links are recorded for every row' if ok else
+               'the link loop is no longer inside the loop over rows')
